@@ -264,6 +264,7 @@ class Flow:
         return r
 
     def ev_match(self, n, env, c):
+        self.ifnodes[id(n)] = n
         sv = self.ev(n["e"], env, "match")
         r = AV()
         for i, arm in enumerate(n.get("arms") or []):
@@ -366,6 +367,7 @@ class Flow:
             s.loops = tuple(self.loopstack)
             s.conds = tuple(self.condstack)
             s.dup = self.dup
+            s.nodes = self.ifnodes
             self.g.sites.append(s)
             return AV([("P", s.id)])
         if f.endswith("parser::utils::verify_parser_complete") or f.endswith("MessageParser::<'a>::is_complete"):
